@@ -220,6 +220,7 @@ def run_check(prop_id: str, tier: str, seed: int, replay: dict | None = None) ->
         #     inputs of the tie module; any disagreement there breaks the tie of this property's model
         tie_info: dict[str, dict] = {}
         tie_breaks: list[dict] = []
+        tie_proofs: list = []
         if replay is None and not any("does not build" in p for p in P):
             for tid in getattr(spec, "TIES", []):
                 tt = time.time()
@@ -229,7 +230,13 @@ def run_check(prop_id: str, tier: str, seed: int, replay: dict | None = None) ->
                 tobs = observe_all(tspec, tcases)
                 tD, tF, terrs = evaluate(tspec, tcases, tobs, workdir, gen_q, name=f"tie_{tid.lower()}")
                 tdrv = [i for i, o in enumerate(tobs) if isinstance(o, dict) and "driver_error" in o]
+                # the tie module's own theorems (Print Assumptions, per-run instantiations) count as obligations too
+                tfails, tproof = ([], {"theorems": {}, "obligations": 0, "discharged": 0})
+                if getattr(tspec, "THEOREMS", None) or hasattr(tspec, "instantiate"):
+                    tfails, tproof = check_proofs(tspec, workdir, gen_q)
+                tie_proofs.append((tid, tfails, tproof))
                 tie_info[tid] = {"cases": len(tcases), "disagreements": len(tD), "oracle_failures": len(tF),
+                                 "obligations": tproof["obligations"], "discharged": tproof["discharged"],
                                  "seconds": round(time.time() - tt, 1), "rule": getattr(tspec, "RULE", "")[:400]}
                 bad = (tF or tD or tdrv)
                 if bad or terrs:
@@ -242,6 +249,12 @@ def run_check(prop_id: str, tier: str, seed: int, replay: dict | None = None) ->
         if proof_future is not None:
             fails, proof_info = proof_future.result()
             P += fails
+        for tid, tfails, tproof in tie_proofs:
+            P += [f"[tie {tid}] {f}" for f in tfails]
+            proof_info["obligations"] += tproof["obligations"]
+            proof_info["discharged"] += tproof["discharged"]
+            for k, v in tproof["theorems"].items():
+                proof_info["theorems"][f"{tid}.{k}"] = v
         drv = [i for i, o in enumerate(obs) if isinstance(o, dict) and "driver_error" in o]
 
         known = load_known()
